@@ -26,7 +26,9 @@ def gen_case(rng):
     else:
         adds.insert(rng.randint(0, len(adds)), {"name": 99, "interval": 1, "weight": rng.choice([1, 3, 64]), "min": 0})
     case = {"cycles": cycles, "adds": adds, "steps": rng.randint(6, 14), "seed": rng.randint(1, 2**31)}
-    case["wscale"] = random.Random(case["seed"]).choice([64, 64, 8, 1])
+    case["wscale"] = random.Random(case["seed"]).choice([64, 64, 8, 1, 64e9])      # weights are relative: w/64e9 is the same table in tiny units
+    if random.Random(case["seed"] ^ 0x5C).random() < 0.3:
+        case["built_with_cycles"] = cycles + random.Random(case["seed"]).choice([1, 3, 7])      # max_cycles is lowered on the existing object before the moves are added
     r3 = random.Random(case["seed"] ^ 0x7AB1E)
     if r3.random() < 0.3 and case["steps"] >= 4:
         case["table_edit"] = {"step": r3.randint(2, case["steps"] - 2), "name": r3.choice(adds)["name"], "interval": r3.choice([1, 2, 3, 5])}
